@@ -4,6 +4,7 @@ import (
 	"fmt"
 	"regexp"
 	"strings"
+	"syscall"
 
 	"golang.org/x/tools/go/ssa"
 )
@@ -112,6 +113,19 @@ func init() {
 		c.Check(len(renames) == 1, "libs/tempfile.WriteFileAtomic single rename", w.pos(f.Pos()), "one os.Rename", fmt.Sprintf("%d os.Rename calls", len(renames)))
 		for _, r := range renames {
 			a := callArgs(r)
+			// the data is on disk before the rename publishes it: the temp file is opened O_SYNC (every write is
+			// synchronous) or synced explicitly before the rename
+			syncOpen := false
+			for _, oc := range w.callsTo(f, "os#OpenFile") {
+				if v, ok := constInt(callArgs(oc)[1]); ok && v&int64(syscall.O_SYNC) == int64(syscall.O_SYNC) {
+					syncOpen = true
+				}
+			}
+			if !syncOpen {
+				okSync, _ := mustPrecede(f, r, w.callPred("os#File.Sync"))
+				syncOpen = okSync
+			}
+			c.Check(syncOpen, "libs/tempfile.WriteFileAtomic makes the data durable before the rename", w.ipos(r), "temp file opened O_SYNC (or synced before the rename)", "the temp file is neither opened O_SYNC nor synced before it is renamed over the target: after a power loss the sign state on disk can be older than a signature already released")
 			c.Check(w.expr(a[1]) == paramName(f, 0), "libs/tempfile.WriteFileAtomic rename target is the requested file", w.ipos(r), "rename(tmp, filename)", "rename target is "+w.expr(a[1]))
 			c.Check(strings.HasSuffix(w.expr(a[0]), ".Name()") && strings.Contains(w.expr(a[0]), "OpenFile"), "libs/tempfile.WriteFileAtomic rename source is the temp file", w.ipos(r), "source is the temp file's name", "rename source is "+w.expr(a[0]))
 			c.guards(f, r, "libs/tempfile.WriteFileAtomic rename", 0,
